@@ -216,6 +216,23 @@ def sub_tissue(at, cells):
     return {"J": J, "I": I, "C": C}
 
 
+def add_lens(at, ii, phi=0.8):
+    """squeeze a lens-shaped cell into the straight interface ii (both sides cells): ii is replaced by two arcs with included angle
+    phi that share BOTH end junctions, each with tension T / (2 cos(phi/2)) so that their resultant at either end is the tension
+    of the replaced interface (force balance at every junction is untouched). The new cell gets the next free cell id."""
+    it = at["I"][ii]
+    assert it["phi"] == 0.0 and it["L"] is not None and it["R"] is not None
+    new = str(max(int(c) for c in at["C"]) + 1)
+    Tn = it["T"] / (2.0 * math.cos(phi / 2.0))
+    I = [dict(x) for x in at["I"]]
+    I[ii] = {"a": it["a"], "b": it["b"], "L": it["L"], "R": new, "T": Tn, "phi": -phi}     # bulges to the left: side of L
+    jj = len(I)
+    I.append({"a": it["a"], "b": it["b"], "L": new, "R": it["R"], "T": Tn, "phi": phi})     # bulges to the right: side of R
+    C = {c: [[(jj if (i == ii and c == it["R"]) else i), d] for i, d in cyc] for c, cyc in at["C"].items()}
+    C[new] = [[jj, 1], [ii, -1]]
+    return {"J": dict(at["J"]), "I": I, "C": C}
+
+
 def cell_adjacency(at):
     adj = {c: set() for c in at["C"]}
     for it in at["I"]:
